@@ -360,6 +360,9 @@ def lineage_job(spec, M, T, seed, single):
             "ruleSplitters": sj[:nrule], "eventSplitters": sj[nrule:], "fuel": FUEL, "cellFuel": CELL_FUEL, "seed": int(seed)}
 
 
+_LINEAGE_SIM = None
+
+
 def run_real(spec, T, seed, single, safe=False):
     """returns ("ok", nodes) | ("raised", message); nodes: list of dicts with numpy arrays and link indices."""
     from bioscrape.lineage import LineageVolumeCellState, LineageCSimInterface, SafeLineageCSimInterface, LineageSSASimulator
@@ -368,7 +371,14 @@ def run_real(spec, T, seed, single, safe=False):
     I = (SafeLineageCSimInterface if safe else LineageCSimInterface)(M)
     I.py_set_initial_time(float(T[0]))
     v = LineageVolumeCellState(v0=spec["vol0"], t0=float(T[0]), state=np.array(M.get_species_array(), dtype=float))
-    sim = LineageSSASimulator()
+    # one simulator object serves the lineage simulations of the whole run, as in a session that keeps it around
+    global _LINEAGE_SIM
+    if single or "_LINEAGE_SIM" not in globals() or _LINEAGE_SIM is None:
+        sim = LineageSSASimulator()
+    else:
+        sim = _LINEAGE_SIM
+    if not single:
+        _LINEAGE_SIM = sim
     py_seed_random(seed)
     with warnings.catch_warnings():
         warnings.simplefilter("ignore")
